@@ -60,6 +60,24 @@ fn det_ref(m: &M) -> Q {
 fn vq(v: &Vector<Q>) -> Vec<Q> { (0..v.size()).map(|i| v[i]).collect() }
 
 // ---------------------------------------------------------------- C01 / C02
+/// by-products of the factorisation: P*A == L*U exactly with the returned permutation and the stored factors; the count of
+/// exchanges has the parity of the permutation (reported under C01 or C02)
+fn lu_byproducts(out: &mut Out, a: &M, c01: bool) {
+    let n = a.len(); let am = to_matrix(a); let dr = det_ref(a);
+    let names: [&'static str; 4] = if c01 { ["C01 the matrix returned by lu_decomp_in_place is a permutation matrix", "C01 lu_decomp_in_place: P*A == L*U with the returned permutation and the stored factors", "C01 the exchange count returned by lu_decomp_in_place has the parity of the permutation", "C01 lu_decomp_in_place panicked on a square matrix"] }
+        else { ["C02 the matrix returned by lu_decomp_in_place is a permutation matrix", "C02 lu_decomp_in_place: P*A == L*U with the returned permutation and the stored factors", "C02 the exchange count returned by lu_decomp_in_place has the parity of the permutation", "C02 lu_decomp_in_place panicked on a square matrix"] };
+    let mut f = am.clone();
+    match quiet(std::panic::AssertUnwindSafe(|| f.lu_decomp_in_place())) {
+        Ok((piv, perm)) => { let (fm, pm) = (from_matrix(&f), from_matrix(&perm));
+            let l: M = (0..n).map(|i| (0..n).map(|j| if j < i { fm[i][j] } else if i == j { Q::int(1) } else { Q::int(0) }).collect()).collect();
+            let u: M = (0..n).map(|i| (0..n).map(|j| if j >= i { fm[i][j] } else { Q::int(0) }).collect()).collect();
+            let is_perm = (0..n).all(|i| (0..n).filter(|&j| pm[i][j] == Q::int(1)).count() == 1 && (0..n).all(|j| pm[i][j] == Q::int(1) || pm[i][j].is_zero())) && (0..n).all(|j| (0..n).filter(|&i| pm[i][j] == Q::int(1)).count() == 1);
+            if !is_perm { report(out, names[0], format!("A={}", mq(a)), mq(&pm), "a permutation matrix".into()); }
+            else if !dr.is_zero() {
+                if matmul(&pm, a) != matmul(&l, &u) { report(out, names[1], format!("A={}", mq(a)), format!("P={} LU={}", mq(&pm), mq(&fm)), "P*A == L*U".into()); }
+                if (det_ref(&pm) == Q::int(1)) != (piv % 2 == 0) { report(out, names[2], format!("A={}", mq(a)), format!("{} exchanges, det P = {:?}", piv, det_ref(&pm)), "same parity".into()); } } }
+        Err(e) => report(out, names[3], format!("A={}", mq(a)), e, "factors".into()) }
+}
 fn c01(rng: &mut Rng, out: &mut Out) {
     for it in 0..400 { case();
         let n = 1 + (it % up(5, 12));
@@ -68,6 +86,7 @@ fn c01(rng: &mut Rng, out: &mut Out) {
         if n > 1 && it % 3 == 0 { a[0][0] = Q::int(0); }
         if n > 2 && it % 4 == 0 { a[1][1] = Q::int(0); a[1][0] = Q::int(0); }
         if det_ref(&a).is_zero() { continue; }
+        lu_byproducts(out, &a, true);
         let mut b: Vec<Q> = (0..n).map(|_| rng.q()).collect();
         if it % 6 == 1 && n > 1 { let j = 1 + rng.below(n as u64 - 1) as usize; for (i, v) in b.iter_mut().enumerate() { *v = Q::int((i == j) as i64); } }      // a unit vector (leading zeros)
         if it % 6 == 4 && n > 2 { b[0] = Q::int(0); b[1] = Q::int(0); }
@@ -180,9 +199,13 @@ fn c02(rng: &mut Rng, out: &mut Out) {
         match d { Ok(d) => if d != dr { report(out, "C02 determinant == exact determinant", format!("A={}", mq(&a)), format!("{:?}", d), format!("{:?}", dr)); },
                   Err(e) => report(out, "C02 determinant panicked", format!("A={}", mq(&a)), e, format!("{:?}", dr)) }
         if from_matrix(&am) != a { report(out, "C02 determinant leaves the matrix unchanged", format!("A={}", mq(&a)), mq(&from_matrix(&am)), mq(&a)); }
+        lu_byproducts(out, &a, false);
+        { let id: M = (0..n).map(|i| (0..n).map(|j| Q::int((i == j) as i64)).collect()).collect();
+          if !(Matrix::<Q>::eye(n) == to_matrix(&id)) { report(out, "C02 eye(n) compares equal to the identity built entry by entry", format!("n={}", n), "eye(n) != built".into(), "equal".into()); } }
         if !dr.is_zero() {
             match quiet(|| am.inverse()) {
                 Ok(inv) => {
+                    if !(inv == to_matrix(&from_matrix(&inv))) { report(out, "C02 the inverse compares equal (==) to the same matrix built entry by entry", format!("A={}", mq(&a)), "inv != rebuilt".into(), "equal".into()); }
                     let p = matmul(&a, &from_matrix(&inv)); let p2 = matmul(&from_matrix(&inv), &a);
                     let id: M = (0..n).map(|i| (0..n).map(|j| Q::int((i == j) as i64)).collect()).collect();
                     if p != id || p2 != id { report(out, "C02 A*inv(A) == inv(A)*A == I", format!("A={}", mq(&a)), format!("A*inv={}", mq(&p)), "identity".into()); }
@@ -316,6 +339,18 @@ fn c03(rng: &mut Rng, out: &mut Out) {
     }
 }
 
+fn c03_empty(out: &mut Out) {
+    // deleting every row leaves a 0 x c matrix (the column count is kept), which is a valid operand of the next call
+    for r in 1..4usize { for c in 1..5usize { case();
+        let mut m = Matrix::<Q>::new(r, c, Q::int(2));
+        for k in 0..r { m.delete_row(0); if m.rows() != r - k - 1 || m.cols() != c { report(out, "C03 delete_row removes one row and keeps the column count (down to 0 x c)", format!("{}x{} after {} deletions", r, c, k + 1), format!("{}x{}", m.rows(), m.cols()), format!("{}x{}", r - k - 1, c)); break; } }
+        if m.rows() == 0 && m.cols() == c {
+            match quiet(|| { let t = m.transpose(); (t.rows(), t.cols()) }) { Ok(sh) => if sh != (c, 0) { report(out, "C03 the transpose of a 0 x c matrix is c x 0", format!("0x{}", c), format!("{:?}", sh), format!("({}, 0)", c)); }, Err(e) => report(out, "C03 transpose of an empty matrix panicked", format!("0x{}", c), e, "c x 0".into()) }
+            match quiet(|| m.multiply(&Vector::<Q>::new(c, Q::int(1))).size()) { Ok(sz) => if sz != 0 { report(out, "C03 (0 x c) * vector(c) is the empty vector", format!("0x{}", c), format!("size {}", sz), "size 0".into()); }, Err(e) => report(out, "C03 (0 x c) * vector(c) panicked", format!("0x{}", c), e, "empty vector".into()) }
+        }
+    } }
+}
+
 // ---------------------------------------------------------------- C04 banded, C05 tridiagonal
 fn c04(rng: &mut Rng, out: &mut Out) {
     for n in 1..up(7, 11) { for m1 in 0..n { for m2 in 0..n { for rep in 0..6 { case();
@@ -332,6 +367,38 @@ fn c04(rng: &mut Rng, out: &mut Out) {
         match quiet(|| &b * &Vector::create(x.clone())) {
             Ok(p) => if vq(&p) != matvec(&d, &x) { report(out, "C04 banded product == dense product", format!("{} x={}", desc, qs(&x)), qs(&vq(&p)), qs(&matvec(&d, &x))); },
             Err(e) => report(out, "C04 banded product panicked", format!("{} x={}", desc, qs(&x)), e, qs(&matvec(&d, &x))),
+        }
+        if rep == 2 && n >= 2 { case();   // resize down by one row and up again with the same bandwidths: the last row comes back empty, the others are kept
+            let mut rb = b.clone();
+            match quiet(std::panic::AssertUnwindSafe(|| { rb.resize(n - 1, m1.min(n - 2), m2.min(n - 2)); rb.resize(n, m1, m2); })) {
+                Ok(()) => if m1 <= n - 2 && m2 <= n - 2 {
+                    let er: M = (0..n).map(|i| (0..n).map(|j| if i + 1 < n { d[i][j] } else { Q::int(0) }).collect()).collect();
+                    if rb.size() != n || rb.size_below() != m1 || rb.size_above() != m2 || (0..n).any(|i| (0..n).any(|j| j <= i + m2 && i <= j + m1 && rb[(i, j)] != er[i][j])) { report(out, "C04 resize down and up again keeps the leading rows and appends an empty row (as the dense matrix does)", desc.clone(), format!("last row {:?}", (0..n).filter(|&j| j + m1 >= n - 1).map(|j| rb[(n - 1, j)]).collect::<Vec<_>>()), "zeros".into()); }
+                    else if let Ok(p) = quiet(|| &rb * &Vector::create(x.clone())) { if vq(&p) != matvec(&er, &x) { report(out, "C04 a resized banded matrix multiplies like its dense twin", format!("{} x={}", desc, qs(&x)), qs(&vq(&p)), qs(&matvec(&er, &x))); } } },
+                Err(e) => report(out, "C04 Banded::resize panicked", desc.clone(), e, "a resized matrix".into()) }
+        }
+        if rep < 2 { // arithmetic: every form, compared entry by entry with the dense twin; the result keeps n, m1, m2 and works as the next operand
+            let mut b2 = Banded::<Q>::new(n, m1, m2, Q::int(0)); let mut d2 = vec![vec![Q::int(0); n]; n];
+            for i in 0..n { for j in 0..n { if j <= i + m2 && i <= j + m1 { let v = rng.q(); b2[(i, j)] = v; d2[i][j] = v; } } }
+            let k = rng.q_nz();
+            let forms: Vec<(&'static str, Box<dyn Fn() -> Banded<Q>>, Box<dyn Fn(usize, usize) -> Q>)> = vec![
+                ("&a + &b", Box::new(|| &b + &b2), Box::new(|i, j| d[i][j] + d2[i][j])), ("a + b", Box::new(|| b.clone() + b2.clone()), Box::new(|i, j| d[i][j] + d2[i][j])),
+                ("&a - &b", Box::new(|| &b - &b2), Box::new(|i, j| d[i][j] - d2[i][j])), ("a - b", Box::new(|| b.clone() - b2.clone()), Box::new(|i, j| d[i][j] - d2[i][j])),
+                ("-&a", Box::new(|| -&b), Box::new(|i, j| -d[i][j])), ("-a", Box::new(|| -b.clone()), Box::new(|i, j| -d[i][j])),
+                ("&a * k", Box::new(|| &b * k), Box::new(|i, j| d[i][j] * k)), ("a * k", Box::new(|| b.clone() * k), Box::new(|i, j| d[i][j] * k)),
+                ("&a / k", Box::new(|| &b / k), Box::new(|i, j| d[i][j] / k)), ("a / k", Box::new(|| b.clone() / k), Box::new(|i, j| d[i][j] / k)),
+                ("a += &b", Box::new(|| { let mut t = b.clone(); t += &b2; t }), Box::new(|i, j| d[i][j] + d2[i][j])), ("a += b", Box::new(|| { let mut t = b.clone(); t += b2.clone(); t }), Box::new(|i, j| d[i][j] + d2[i][j])),
+                ("a -= &b", Box::new(|| { let mut t = b.clone(); t -= &b2; t }), Box::new(|i, j| d[i][j] - d2[i][j])), ("a -= b", Box::new(|| { let mut t = b.clone(); t -= b2.clone(); t }), Box::new(|i, j| d[i][j] - d2[i][j]))];
+            for (name, f, e) in forms.iter() { case();
+                match quiet(|| f()) {
+                    Ok(r) => {
+                        if r.size() != n || r.size_below() != m1 || r.size_above() != m2 { report(out, "C04 banded arithmetic keeps n and both bandwidths of its operands", format!("{} [{}]", desc, name), format!("n={} below={} above={}", r.size(), r.size_below(), r.size_above()), format!("n={} below={} above={}", n, m1, m2)); continue; }
+                        let er: M = (0..n).map(|i| (0..n).map(|j| if j <= i + m2 && i <= j + m1 { e(i, j) } else { Q::int(0) }).collect()).collect();
+                        if (0..n).any(|i| (0..n).any(|j| j <= i + m2 && i <= j + m1 && r[(i, j)] != er[i][j])) { report(out, "C04 banded arithmetic agrees with the dense matrix entry by entry", format!("{} b2={} k={:?} [{}]", desc, mq(&d2), k, name), "differs".into(), mq(&er)); continue; }
+                        match quiet(|| &r * &Vector::create(x.clone())) { Ok(p) => if vq(&p) != matvec(&er, &x) { report(out, "C04 the result of banded arithmetic, used as the next operand, multiplies like its dense twin", format!("{} [{}] x={}", desc, name, qs(&x)), qs(&vq(&p)), qs(&matvec(&er, &x))); },
+                            Err(pe) => report(out, "C04 the result of banded arithmetic is rejected by the next call", format!("{} [{}]", desc, name), pe, "a product".into()) } }
+                    Err(pe) => report(out, "C04 banded arithmetic panicked on conforming operands", format!("{} [{}]", desc, name), pe, "a result".into()) }
+            }
         }
         match quiet(|| b.clone() * Vector::create(x.clone())) {
             Ok(p) => if vq(&p) != matvec(&d, &x) { report(out, "C04 consuming banded product == dense product", format!("{} x={}", desc, qs(&x)), qs(&vq(&p)), qs(&matvec(&d, &x))); },
@@ -400,6 +467,21 @@ fn c05_f64(rng: &mut Rng, out: &mut Out) {
             Err(e) => report(out, "C05 f64 solve refused a diagonally dominant system (no pivot is zero)", ctx, e, "a solution".into()),
         }
     } }
+}
+fn c05_ctor(out: &mut Out) {
+    for n in 1..6usize { case();
+        let mut rs = Tridiagonal::<Q>::new(1); rs.resize(n);
+        let variants: Vec<(&'static str, Tridiagonal<Q>)> = vec![("new(n)", Tridiagonal::<Q>::new(n)), ("with_elements(1, 2, 3, n)", Tridiagonal::<Q>::with_elements(Q::int(1), Q::int(2), Q::int(3), n)), ("new(1).resize(n)", rs)];
+        for (name, t) in variants { case();
+            let (ls, lm, lu) = (t.subdiagonal().size(), t.maindiagonal().size(), t.superdiagonal().size());
+            if ls != n - 1 || lm != n || lu != n - 1 || t.size() != n { report(out, "C05 a tridiagonal matrix of order n has diagonals of lengths n-1, n, n-1 however it was built", format!("{} n={}", name, n), format!("size {} diagonals {}, {}, {}", t.size(), ls, lm, lu), format!("size {} diagonals {}, {}, {}", n, n - 1, n, n - 1)); continue; }
+            let other = Tridiagonal::<Q>::with_vecs(vec![Q::int(1); n - 1], vec![Q::int(5); n], vec![Q::int(2); n - 1]);
+            match quiet(|| { let s = t.clone() + other.clone(); let d2 = t.clone() - other.clone(); (s.size(), d2.size()) }) { Ok(sz) => if sz != (n, n) { report(out, "C05 sum / difference with a matrix of the same order built from vectors", format!("{} n={}", name, n), format!("{:?}", sz), format!("({}, {})", n, n)); },
+                Err(e) => report(out, "C05 a matrix built by a constructor is rejected by + / - with one of the same order built from vectors", format!("{} n={}", name, n), e, "a sum".into()) }
+            match quiet(|| Tridiagonal::<Q>::with_vectors(t.subdiagonal().clone(), t.maindiagonal().clone(), t.superdiagonal().clone()).size()) { Ok(sz) => if sz != n { report(out, "C05 rebuilding a matrix from its own three diagonals", format!("{} n={}", name, n), format!("{}", sz), format!("{}", n)); },
+                Err(e) => report(out, "C05 rebuilding a matrix from its own three diagonals panicked", format!("{} n={}", name, n), e, "the same matrix".into()) }
+        }
+    }
 }
 fn c05(rng: &mut Rng, out: &mut Out) {
     for n in 1..up(8, 13) { for rep in 0..12 { case();
@@ -502,7 +584,7 @@ fn c07_insert(rng: &mut Rng, out: &mut Out) {
         let mut hist = vec![format!("{}x{} start {}", r, c, mq(&d))];
         for _ in 0..4 { case();
             let (i, j, v) = (rng.below(r as u64) as usize, rng.below(c as u64) as usize, Q::int(rng.int(-4, 4)));
-            if v.is_zero() { continue; }
+            if v.is_zero() && rng.below(2) == 0 { continue; }      // every other zero is stored explicitly
             if quiet(std::panic::AssertUnwindSafe(|| s.insert(i, j, v))).is_err() { report(out, "C07 insert panicked on an in-range position", hist.join("; "), format!("insert({},{},{:?})", i, j, v), "stored".into()); break; }
             d[i][j] = v; hist.push(format!("insert({},{},{:?})", i, j, v));
         }
@@ -513,6 +595,17 @@ fn c07_insert(rng: &mut Rng, out: &mut Out) {
         match quiet(|| s.multiply(&Vector::create(x.clone()))) { Ok(p) => if vq(&p) != matvec(&d, &x) { report(out, "C07 after inserts and scale: A*x == dense A*x", format!("{} x={}", ctx, qs(&x)), qs(&vq(&p)), qs(&matvec(&d, &x))); }, Err(e) => report(out, "C07 multiply panicked after inserts", ctx.clone(), e, "a product".into()) }
         match quiet(|| s.transpose_multiply(&Vector::create(y.clone()))) { Ok(p) => if vq(&p) != matvec(&dt, &y) { report(out, "C07 after inserts and scale: A^T*y == dense A^T*y", format!("{} y={}", ctx, qs(&y)), qs(&vq(&p)), qs(&matvec(&dt, &y))); }, Err(e) => report(out, "C07 transpose_multiply panicked after inserts", ctx.clone(), e, "a product".into()) }
         match quiet(|| s.transpose().multiply(&Vector::create(y.clone()))) { Ok(p) => if vq(&p) != matvec(&dt, &y) { report(out, "C07 after inserts and scale: transpose().multiply(y) == A^T*y", format!("{} y={}", ctx, qs(&y)), qs(&vq(&p)), qs(&matvec(&dt, &y))); }, Err(e) => report(out, "C07 transpose panicked after inserts", ctx.clone(), e, "a product".into()) }
+        // the explicit transpose as an object of its own: well-formed, element lookup everywhere (empty positions included), and usable as
+        // the input of the next call (scale, then multiply)
+        match quiet(std::panic::AssertUnwindSafe(|| { let mut at = s.transpose(); let wf = sparse_wf(&at);
+                let look: Vec<Vec<Q>> = (0..c).map(|i| (0..r).map(|j| at.get(i, j).unwrap_or(Q::int(0))).collect()).collect();
+                at.scale(&Q::int(3)); let p = vq(&at.multiply(&Vector::create(y.clone()))); (wf, look, p) })) {
+            Ok((wf, look, p)) => {
+                if let Some(why) = wf { report(out, "C07 the explicit transpose is a well-formed compressed-column matrix", ctx.clone(), why, "well-formed".into()); }
+                if look != dt { report(out, "C07 element lookup in the explicit transpose agrees with the dense transpose at every position", ctx.clone(), mq(&look), mq(&dt)); }
+                let e: Vec<Q> = matvec(&dt, &y).iter().map(|v| *v * Q::int(3)).collect();
+                if p != e { report(out, "C07 the explicit transpose, scaled, multiplies like 3 A^T", format!("{} y={}", ctx, qs(&y)), qs(&p), qs(&e)); } }
+            Err(e) => report(out, "C07 lookup / scale / multiply on the explicit transpose panicked", ctx.clone(), e, "values".into()) }
     }
 }
 fn c07_sizes(_rng: &mut Rng, out: &mut Out) {
@@ -566,6 +659,20 @@ fn solvers(s: &Sparse<f64>, b: &Vector<f64>, x0: &Vector<f64>, maxit: usize, tol
     let mut x = x0.clone(); let r = s.solve_qmr(b, &mut x, maxit, tol); v.push(("qmr", r, x));
     v
 }
+/// the same matrix assembled by edits: triplets in an order that leaves the rows of a column unsorted, a third of the entries first
+/// stored with another value and then overwritten by insert, another third inserted as new entries
+fn sparse_f_edits(d: &Vec<Vec<f64>>, rng: &mut Rng) -> Sparse<f64> {
+    let n = d.len(); let mut t = vec![]; let mut later = vec![];
+    for j in 0..n { for i in (0..n).rev() { if d[i][j] != 0.0 { match rng.below(3) { 0 => t.push((i, j, d[i][j])), 1 => { t.push((i, j, d[i][j] + 1.5)); later.push((i, j)); }, _ => later.push((i, j)) } } } }
+    let mut s = Sparse::<f64>::from_triplets(n, n, &mut t);
+    for (i, j) in later { s.insert(i, j, d[i][j]); }
+    s
+}
+fn solve_one(name: &str, s: &Sparse<f64>, b: &Vector<f64>, x0: &Vector<f64>, maxit: usize, tol: f64) -> (Result<usize, f64>, Vector<f64>) {
+    let mut x = x0.clone();
+    let r = match name { "cg" => s.solve_cg(b, &mut x, maxit, tol), "bicg itol=1" => s.solve_bicg(b, &mut x, maxit, tol, 1), "bicg itol=2" => s.solve_bicg(b, &mut x, maxit, tol, 2), "bicgstab" => s.solve_bicgstab(b, &mut x, maxit, tol), _ => s.solve_qmr(b, &mut x, maxit, tol) };
+    (r, x)
+}
 fn c08(rng: &mut Rng, out: &mut Out) {
     // the stopping tests are written with Vector::norm_2 and Vector::dot: check them directly (largest entry anywhere)
     for it in 0..200 { case();
@@ -592,13 +699,17 @@ fn c08(rng: &mut Rng, out: &mut Out) {
         let b: Vec<f64> = (0..n).map(|_| if it % 9 == 0 { 0.0 } else { rng.f() }).collect();
         let x0: Vec<f64> = (0..n).map(|_| match it % 3 { 0 => 0.0, 1 => rng.f(), _ => 500.0 * rng.f() }).collect();
         if it % 5 == 2 { for row in d.iter_mut() { for v in row.iter_mut() { *v *= 1.0e-3; } } }             // small-norm matrix
-        let s = sparse_f(&d); let bv = Vector::create(b.clone()); let xv = Vector::create(x0.clone());
+        let s = if it % 5 == 3 { match quiet(std::panic::AssertUnwindSafe(|| sparse_f_edits(&d, rng))) { Ok(s) => s, Err(e) => { report(out, "C08 assembling a system by inserts panicked", format!("A={:?}", d), e, "a matrix".into()); continue; } } } else { sparse_f(&d) };
+        let bv = Vector::create(b.clone()); let xv = Vector::create(x0.clone());
         let tol = [1e-10, 1e-6, 1e-3][it % 3]; let maxit = [0usize, 1, 3, 60, 200, 60][(it / 4) % 6];      // budget independent of the kind of system
         let ctx = format!("A={:?} b={:?} x0={:?} tol={} max_iter={}", d, b, x0, tol, maxit);
         let res = match quiet(|| solvers(&s, &bv, &xv, maxit, tol)) { Ok(r) => r, Err(e) => { report(out, "C08 solver panicked on conforming input", ctx, e, "Ok or Err".into()); continue; } };
         for (name, r, x) in res { case();
             if maxit == 0 && (0..n).any(|i| x[i].to_bits() != x0[i].to_bits()) { report(out, "C08 zero iteration budget leaves x untouched", format!("{} solver={}", ctx, name), format!("{:?}", x), format!("{:?}", x0)); }
             if let Ok(k) = r {
+                // the reported count is the number of iterations performed: the same call with exactly that budget succeeds with the same x
+                if k <= maxit { let (r2, x2) = solve_one(name, &s, &bv, &xv, k, tol);
+                    if r2 != Ok(k) || (0..n).any(|i| x2[i].to_bits() != x[i].to_bits()) { report(out, "C08 the iteration count in Ok(k) is the number of iterations performed (a budget of exactly k reproduces the result)", format!("{} solver={}", ctx, name), format!("Ok({}) then with max_iter={}: {:?}", k, k, r2), format!("Ok({}) and the same x", k)); } }
                 if k > maxit { report(out, "C08 reported iterations <= max_iter", format!("{} solver={}", ctx, name), format!("Ok({})", k), format!("<= {}", maxit)); }
                 let fin = (0..n).all(|i| x[i].is_finite());
                 let rr = resid(&d, &x, &b);
@@ -661,6 +772,22 @@ fn c09(rng: &mut Rng, out: &mut Out) {
             if name == "cg" && !spd { continue; }
             let ok = r.is_ok() && resid(&d, &x, &b) <= 1e-5;
             if !ok { report(out, "C09 converges on SPD / strictly diagonally dominant systems", format!("{} solver={}", ctx, name), format!("{:?} residual={:e}", r, resid(&d, &x, &b)), "Ok within 10n+20 iterations".into()); }
+            // the reported count is the number of iterations performed
+            if let Ok(k) = r { let (r2, x2) = solve_one(name, &s, &bv, &Vector::create(vec![0.0; n]), k, 1e-8);
+                if r2 != Ok(k) || (0..n).any(|i| x2[i].to_bits() != x[i].to_bits()) { report(out, "C09 the iteration count in Ok(k) is the number of iterations performed (a budget of exactly k reproduces the result)", format!("{} solver={}", ctx, name), format!("Ok({}) then with max_iter={}: {:?}", k, k, r2), format!("Ok({}) and the same x", k)); } }
+        }
+        // the same system assembled by edits (unsorted columns, overwrites, new entries), then scaled by 2 together with b, and its
+        // explicit transpose: still the system the dense reference describes
+        if it < 160 && it % 4 == 2 && spd { case();      // SPD systems only: the listed breakdowns of BiCG / QMR concern nonsymmetric ones
+            let mut fz = Rng(0x0BADC0DE12345678 ^ (it as u64).wrapping_mul(0x9E3779B97F4A7C15) | 1);
+            match quiet(std::panic::AssertUnwindSafe(|| { let mut e = sparse_f_edits(&d, &mut fz); e.scale(&2.0); let et = e.transpose(); (e, et) })) {
+                Ok((e, et)) => { let d2: Vec<Vec<f64>> = d.iter().map(|r| r.iter().map(|v| 2.0 * v).collect()).collect(); let b2: Vec<f64> = b.iter().map(|v| 2.0 * v).collect();
+                    let dt2: Vec<Vec<f64>> = (0..n).map(|i| (0..n).map(|j| d2[j][i]).collect()).collect();
+                    for (which, m, dd) in [("assembled by edits, scaled", &e, &d2), ("assembled by edits, scaled, transposed", &et, &dt2)] {
+                        for (name, r, x) in solvers(m, &Vector::create(b2.clone()), &Vector::create(vec![0.0; n]), 10 * n + 20, 1e-8) { case();
+                            let ok = r.is_ok() && resid(dd, &x, &b2) <= 1e-5;
+                            if !ok { report(out, "C09 converges on a system assembled by edits, then scaled / transposed", format!("{} ({}) solver={}", ctx, which, name), format!("{:?} residual={:e}", r, resid(dd, &x, &b2)), "Ok within 10n+20 iterations".into()); } } } }
+                Err(pe) => report(out, "C09 assembling a system by edits, scaling and transposing it panicked", ctx.clone(), pe, "a matrix".into()) }
         }
     }
     // SPD systems that need about n sweeps: tridiag(-1, 2, -1) of order up to 60 (every solver of the unchanged library converges in
@@ -768,6 +895,21 @@ fn c10(rng: &mut Rng, out: &mut Out) {
             }
         }
     }
+    { // products of integer linear factors: the returned values correspond one to one to the true roots - well separated roots of degree
+      // 2..6, and double roots in the closed-form degrees (each root as often as its multiplicity)
+      let mulr = |p: &Vec<f64>, r: f64| -> Vec<f64> { let mut q = vec![0.0; p.len() + 1]; for (k, c) in p.iter().enumerate() { q[k + 1] += *c; q[k] -= *c * r; } q };
+      let sets: Vec<(Vec<f64>, f64)> = vec![(vec![1.0, 2.0], 1e-9), (vec![-3.0, 2.0, 5.0], 1e-7), (vec![1.0, -1.0, 2.0, -2.0], 1e-6), (vec![-4.0, -1.0, 1.0, 3.0, 6.0], 1e-6), (vec![-5.0, -3.0, -1.0, 2.0, 4.0, 7.0], 1e-5),
+          (vec![1.0, 1.0], 1e-6), (vec![-2.0, -2.0], 1e-6), (vec![1.0, 1.0, 2.0], 1e-5), (vec![-1.0, -1.0, 3.0], 1e-5), (vec![2.0, 2.0, -3.0], 1e-5), (vec![0.0, 0.0, 1.0], 1e-5), (vec![3.0, -2.0, -2.0], 1e-5), (vec![0.0, 1.0, 2.0], 1e-7), (vec![0.0, 0.0, 5.0, -1.0], 1e-5)];
+      for (rts, tolr) in sets { for lead in [1.0, 2.0, -3.0] { for refine in [false, true] { case();
+          let mut p = vec![lead]; for r in &rts { p = mulr(&p, *r); }
+          let ctx = format!("{} * prod (x - r) for r in {:?} (coefficients {:?}) refine={}", lead, rts, p, refine);
+          match quiet(|| Polynomial::<f64>::new(p.clone()).roots(refine)) {
+              Ok(z) => { let mut got: Vec<(f64, f64)> = (0..z.size()).map(|k| (z[k].real, z[k].imag)).collect(); got.sort_by(|a, b| a.0.partial_cmp(&b.0).unwrap_or(std::cmp::Ordering::Equal));
+                  let mut want = rts.clone(); want.sort_by(|a, b| a.partial_cmp(b).unwrap());
+                  let ok = got.len() == want.len() && got.iter().zip(&want).all(|(g, w)| (g.0 - w).abs() <= tolr && g.1.abs() <= tolr);
+                  if !ok { report(out, "C10 the returned values correspond one to one to the true roots (each root as often as its multiplicity)", ctx, format!("{:?}", got), format!("{:?}", want)); } }
+              Err(e) => report(out, "C10 root finder panicked on degree >= 1", ctx, e, format!("{:?}", rts)) }
+      } } } }
     if quiet(|| Polynomial::<f64>::new(vec![3.0]).roots(false)).is_ok() { report(out, "C10 a degree-0 polynomial is rejected", "coeffs=[3.0]".into(), "returned".into(), "panic".into()); }
 }
 
@@ -869,6 +1011,18 @@ fn c12(rng: &mut Rng, out: &mut Out) {
             Err(e) => report(out, "C12 polydiv never panics", format!("u={:?} v={:?}", u, v), e, "Ok".into()),
         }
     }
+    // the library's own representations of zero as the NEXT dividend: the empty quotient of a short-by-long division, an empty product
+    for lv in 1..4usize { case();
+        let v = { let mut v = pq(rng, lv); if v[lv - 1].is_zero() { v[lv - 1] = Q::int(2); } v }; let w = vec![Q::int(1), Q::int(3)];
+        let first = quiet(|| Polynomial::new(vec![Q::int(5)]).polydiv(&Polynomial::new({ let mut t = v.clone(); t.push(Q::int(1)); t })));
+        let zero_q = match first { Ok(Ok((q, _))) => q, _ => { report(out, "C12 division by a nonzero divisor succeeds", format!("u=[5] v={}+x^{}", qs(&v), lv), "failed".into(), "Ok".into()); continue; } };
+        for (what, zero) in [("the quotient of a short-by-long division", zero_q), ("the empty polynomial", Polynomial::<Q>::empty()), ("p * empty", &Polynomial::new(v.clone()) * &Polynomial::<Q>::empty())] { case();
+            match quiet(|| zero.polydiv(&Polynomial::new(w.clone()))) {
+                Ok(Ok((q, r))) => if !coeffs_of(&q).iter().all(|c| c.is_zero()) || !coeffs_of(&r).iter().all(|c| c.is_zero()) { report(out, "C12 zero divided by a nonzero divisor is zero remainder zero", format!("dividend: {}, divisor {}", what, qs(&w)), format!("q={} r={}", qs(&coeffs_of(&q)), qs(&coeffs_of(&r))), "0, 0".into()); },
+                Ok(Err(e)) => report(out, "C12 division by a nonzero divisor succeeds (also for a zero dividend produced by the library)", format!("dividend: {}, divisor {}", what, qs(&w)), e.to_string(), "Ok((0, 0))".into()),
+                Err(e) => report(out, "C12 polydiv never panics", format!("dividend: {}, divisor {}", what, qs(&w)), e, "Ok".into()) }
+        }
+    }
     if !matches!(quiet(|| Polynomial::new(vec![Q::int(1)]).polydiv(&Polynomial::new(vec![Q::int(0), Q::int(0)]))), Ok(Err(_))) { report(out, "C12 division by the zero polynomial is an error", "v=[0,0]".into(), "not Err".into(), "Err".into()); }
 }
 
@@ -891,6 +1045,7 @@ fn c13(rng: &mut Rng, out: &mut Out) {
         if (lt as u8 + eq as u8 + gt as u8) != 1 || (z != w) == eq { report(out, "C13 exactly one of <, ==, > and != is the negation of ==", ctx.clone(), format!("lt={} eq={} gt={} ne={}", lt, eq, gt, z != w), "consistent".into()); }
         let k = rng.q_nz(); let sc = z.clone() * k; if !same(&sc, &Complex::new(z.real * k, z.imag * k)) { report(out, "C13 scalar product", ctx.clone(), format!("{:?}", sc), "componentwise".into()); }
         let dv = z.clone() / k; if !same(&dv, &Complex::new(z.real / k, z.imag / k)) { report(out, "C13 scalar quotient", ctx.clone(), format!("{:?}", dv), "componentwise".into()); }
+        if (z <= w) != (lt || eq) || (z >= w) != (gt || eq) { report(out, "C13 <= and >= agree with <, == and >", ctx.clone(), format!("le={} ge={} lt={} eq={} gt={}", z <= w, z >= w, lt, eq, gt), "le == lt || eq, ge == gt || eq".into()); }
         let v = cq(rng); if z < w && w < v && !(z < v) { report(out, "C13 the lexicographic order is transitive", format!("{} v=({:?},{:?})", ctx, v.real, v.imag), "z < w, w < v, not z < v".into(), "z < v".into()); }
     }
     // f64 components of magnitude 1e-100 .. 1e100 (also within one operand): product and quotient agree with the operation carried out on
@@ -903,6 +1058,13 @@ fn c13(rng: &mut Rng, out: &mut Out) {
         let (z, w) = (Cmplx::new(comp(rng), comp(rng)), Cmplx::new(comp(rng), comp(rng)));
         if (z.real == 0.0 && z.imag == 0.0) || (w.real == 0.0 && w.imag == 0.0) { continue; }
         let ctx = format!("z=({:e},{:e}) w=({:e},{:e})", z.real, z.imag, w.real, w.imag);
+        { // complex (op) real scalar: the compound form is bit-identical to the binary form (scalars that are not powers of two)
+          let r = (3.0 + rng.below(7) as f64) * if rng.below(2) == 0 { 1.0 } else { -1.0 } * [1.0, 0.1, 1.0e-3, 7.0e5][rng.below(4) as usize];
+          let bits = |a: Cmplx, b: Cmplx| a.real.to_bits() == b.real.to_bits() && a.imag.to_bits() == b.imag.to_bits();
+          let (mut a1, mut a2, mut a3, mut a4) = (z, z, z, z); a1 += r; a2 -= r; a3 *= r; a4 /= r;
+          for (nm, c, b) in [("+= r", a1, z + r), ("-= r", a2, z - r), ("*= r", a3, z * r), ("/= r", a4, z / r)] {
+              if !bits(c, b) { report(out, "C13 f64: complex (op)= real scalar is bit-identical to complex (op) real scalar", format!("{} r={:e} [{}]", ctx, r, nm), format!("({:e}, {:e})", c.real, c.imag), format!("({:e}, {:e})", b.real, b.imag)); } }
+          let q = z / r; if !((q.real - z.real / r).abs() <= 1e-15 * (z.real / r).abs() && (q.imag - z.imag / r).abs() <= 1e-15 * (z.imag / r).abs()) { report(out, "C13 f64: complex / real scalar divides both parts", format!("{} r={:e}", ctx, r), format!("({:e}, {:e})", q.real, q.imag), format!("({:e}, {:e})", z.real / r, z.imag / r)); } }
         let (ez, ew) = (ex(&z), ex(&w));
         let (zs, ws) = (Cmplx::new(sc2(z.real, -ez), sc2(z.imag, -ez)), Cmplx::new(sc2(w.real, -ew), sc2(w.imag, -ew)));
         let den = ws.real * ws.real + ws.imag * ws.imag;
@@ -927,6 +1089,12 @@ fn c14(_rng: &mut Rng, out: &mut Out) {
     let one = Cmplx::new(1.0, 0.0);
     for &z in &pts { case();
         let ctx = format!("z=({}, {})", z.real, z.imag);
+        { // the modulus through every view: the inherent abs, the Signed trait method (what generic code and the pivot searches call), polar form
+          let m = (z.real * z.real + z.imag * z.imag).sqrt();
+          let t = <Cmplx as Signed>::abs(&z);
+          if !((z.abs() - m).abs() <= 1e-14 * m) || !((t.real - m).abs() <= 1e-14 * m && t.imag == 0.0) { report(out, "C14 |z| through the inherent method and through the Signed trait method is the modulus (as x + 0i)", ctx.clone(), format!("abs()={} Signed::abs=({}, {})", z.abs(), t.real, t.imag), format!("{}", m)); }
+          let back = Cmplx::polar(z.abs(), z.arg());
+          if !cl(back, z) { report(out, "C14 polar(|z|, arg z) == z in every quadrant and on every axis", ctx.clone(), format!("({}, {})", back.real, back.imag), format!("({}, {})", z.real, z.imag)); } }
         let chk = |out: &mut Out, name: &'static str, got: Cmplx, exp: Cmplx| if !cl(got, exp) { report(out, name, ctx.clone(), format!("({}, {})", got.real, got.imag), format!("({}, {})", exp.real, exp.imag)); };
         chk(out, "C14 sqrt(z)^2 == z", z.sqrt() * z.sqrt(), z);
         if z.sqrt().real < -1e-12 { report(out, "C14 Re sqrt z >= 0", ctx.clone(), format!("{}", z.sqrt().real), ">= 0".into()); }
@@ -1104,6 +1272,40 @@ fn c17(_rng: &mut Rng, out: &mut Out) {
         match nw2.solve(&g) { Ok(z) => if !((z - Cmplx::new(0.0, 1.0)).abs() <= 1e-5) { report(out, "C17 complex scalar success means a root (every step size)", format!("z^2 + 1 from 0.5+0.5i, delta={:?}", dl), format!("Ok(({}, {}))", z.real, z.imag), "i".into()); },
             Err(z) => report(out, "C17 complex scalar solve converges from inside the basin (every step size)", format!("z^2 + 1 from 0.5+0.5i, delta={:?}", dl), format!("Err(({}, {}))", z.real, z.imag), "Ok(i)".into()) }
     }
+    // a solver configured by setters in any order behaves like one configured directly (same parameters, same result)
+    for (dl, tl) in [(1.0e-4, 1.0e-8), (1.0e-10, 1.0e-8), (1.0e-8, 1.0e-4), (1.0e-6, 1.0e-12)] { case();
+        let f = |x: f64| x.exp() - 2.0;
+        let mut a = Newton::<f64>::new(1.0); a.delta(dl); a.tolerance(tl);
+        let mut b = Newton::<f64>::new(7.5); b.delta(dl); b.tolerance(tl); b.guess(1.0);
+        let mut c = Newton::<f64>::new(7.5); c.guess(1.0); c.tolerance(tl); c.delta(dl);
+        let (ra, rb, rc) = (a.solve(&f), b.solve(&f), c.solve(&f));
+        let show = |r: &Result<f64, f64>| match r { Ok(x) => format!("Ok({})", x), Err(x) => format!("Err({})", x) };
+        let same = |p: &Result<f64, f64>, q: &Result<f64, f64>| match (p, q) { (Ok(x), Ok(y)) | (Err(x), Err(y)) => x.to_bits() == y.to_bits(), _ => false };
+        if !same(&ra, &rb) || !same(&ra, &rc) { report(out, "C17 the order of the configuration calls (tolerance, delta, guess) does not matter", format!("exp(x) - 2, guess 1, delta={:e} tol={:e}", dl, tl), format!("{} / {} / {}", show(&ra), show(&rb), show(&rc)), "identical results".into()); }
+        let g = |z: Cmplx| z * z * z - Cmplx::new(2.0, 0.0);
+        let mut ac = Newton::<Cmplx>::new(Cmplx::new(1.0, 0.0)); ac.delta(dl); ac.tolerance(tl);
+        let mut bc = Newton::<Cmplx>::new(Cmplx::new(-3.0, 2.0)); bc.delta(dl); bc.tolerance(tl); bc.guess(Cmplx::new(1.0, 0.0));
+        let (qa, qb) = (ac.solve(&g), bc.solve(&g));
+        let samec = match (&qa, &qb) { (Ok(x), Ok(y)) | (Err(x), Err(y)) => x.real.to_bits() == y.real.to_bits() && x.imag.to_bits() == y.imag.to_bits(), _ => false };
+        if !samec { report(out, "C17 the order of the configuration calls (tolerance, delta, guess) does not matter (complex scalar solver)", format!("z^3 - 2, guess 1+0i, delta={:e} tol={:e}", dl, tl), format!("{} / {}", if qa.is_ok() { "Ok" } else { "Err" }, if qb.is_ok() { "Ok" } else { "Err" }), "identical results".into()); }
+    }
+    // a converged result, or a point very close to the root, used as the guess of the next call: success again
+    { let f2 = |x: Vec64| Vec64::create(vec![x[0] * x[0] - 2.0, x[1] * x[1] - 3.0 + 0.0 * x[0]]);
+      let j2 = |x: Vec64| { let mut m = Mat64::new(2, 2, 0.0); m[(0, 0)] = 2.0 * x[0]; m[(1, 1)] = 2.0 * x[1]; m };
+      let root = [2.0f64.sqrt(), 3.0f64.sqrt()];
+      for tl in [1.0e-8, 1.0e-12] { for which in 0..2 { case();
+          let mut nw = Newton::<Vec64>::new(Vec64::create(vec![1.0, 1.0])); nw.tolerance(tl);
+          let first = if which == 0 { nw.solve(&f2) } else { nw.solve_jacobian(&f2, &j2) };
+          match first {
+              Ok(x) => { if (x[0] - root[0]).abs() > 1e-6 || (x[1] - root[1]).abs() > 1e-6 { report(out, "C17 system success means a root", format!("(x^2-2, y^2-3) tol={:e} {}", tl, if which == 0 { "solve" } else { "solve_jacobian" }), format!("({}, {})", x[0], x[1]), format!("({}, {})", root[0], root[1])); }
+                  nw.guess(x.clone());
+                  let again = if which == 0 { nw.solve(&f2) } else { nw.solve_jacobian(&f2, &j2) };
+                  if again.is_err() { report(out, "C17 a converged result used as the guess of the next call succeeds again", format!("(x^2-2, y^2-3) tol={:e} {}", tl, if which == 0 { "solve" } else { "solve_jacobian" }), "Err".into(), "Ok".into()); } }
+              Err(_) => report(out, "C17 system solve converges from inside the basin", format!("(x^2-2, y^2-3) from (1,1) tol={:e}", tl), "Err".into(), "Ok".into()) }
+          let mut near = Newton::<Vec64>::new(Vec64::create(vec![root[0] + 1.0e-5, root[1] - 1.0e-5])); near.tolerance(tl);
+          let rn = if which == 0 { near.solve(&f2) } else { near.solve_jacobian(&f2, &j2) };
+          if rn.is_err() { report(out, "C17 a guess very close to the root converges", format!("(x^2-2, y^2-3) from root + 1e-5, tol={:e} {}", tl, if which == 0 { "solve" } else { "solve_jacobian" }), "Err".into(), "Ok".into()); }
+      } } }
     // systems: Ok exactly when some evaluated iterate had residual <= tol within the budget
     let lin = |x: Vec64| Vec64::create(vec![2.0 * x[0] + x[1] - 3.0, x[0] + 3.0 * x[1] - 4.0, x[2] - 5.0]);
     let linj = |_x: Vec64| { let mut m = Mat64::new(3, 3, 0.0); m[(0, 0)] = 2.0; m[(0, 1)] = 1.0; m[(1, 0)] = 1.0; m[(1, 1)] = 3.0; m[(2, 2)] = 1.0; m };
@@ -1185,6 +1387,9 @@ fn c19_file(rng: &mut Rng, out: &mut Out) {
         let path = dir.join(format!("ohsl_replay_c19_{}_{}.dat", std::process::id(), it));
         let ps = path.to_string_lossy().to_string();
         let ctx = format!("precision={} nodes={:?} vars={:?}", prec, xs, model);
+        if it % 2 == 1 { // the path already holds a longer file of an earlier mesh: output replaces it
+            let longer = Mesh1D::<f64, f64>::new(Vector::create((0..n + 9).map(|i| i as f64).collect()), nv);
+            if quiet(|| longer.output(&ps, 8)).is_err() { report(out, "C19 output panicked", ctx.clone(), "panic".into(), "a file".into()); continue; } }
         if quiet(|| m.output(&ps, prec)).is_err() { report(out, "C19 output panicked", ctx.clone(), "panic".into(), "a file".into()); continue; }
         let targets: Vec<(&str, Mesh1D<f64, f64>)> = vec![
             ("a new mesh", Mesh1D::<f64, f64>::new(Vector::create(vec![0.0, 1.0]), nv)),
@@ -1316,6 +1521,20 @@ fn c20(rng: &mut Rng, out: &mut Out) {
         if b != 6 { must_panic(out, format!("&Matrix({}x{}) * &Matrix(6x6)", a, b), quiet(|| { let _ = &m * &sq; })); must_panic(out, format!("Matrix({}x{}) * Matrix(6x6)", a, b), quiet(|| { let _ = m.clone() * sq.clone(); })); }
         if a != 6 || b != 6 { must_panic(out, format!("&Matrix(6x6) + &Matrix({}x{})", a, b), quiet(|| { let _ = &sq + &m; })); must_panic(out, format!("&Matrix(6x6) - &Matrix({}x{})", a, b), quiet(|| { let _ = &sq - &m; })); }
       } } }
+    // the result of an operation on matrices with different lower / upper bandwidths has their shape: it is accepted (not rejected) by the next
+    // operation with an operand of that shape, and rejected with the swapped split
+    for (n, m1, m2) in [(4usize, 1usize, 2usize), (5, 2, 0), (5, 0, 1), (6, 3, 1)] { case();
+        let a = Banded::<Q>::new(n, m1, m2, Q::int(3)); let same = Banded::<Q>::new(n, m1, m2, Q::int(1)); let swapped = Banded::<Q>::new(n, m2, m1, Q::int(1));
+        let results: Vec<(&'static str, Box<dyn Fn() -> Banded<Q>>)> = vec![("&a * 2", Box::new(|| &a * Q::int(2))), ("&a / 3", Box::new(|| &a / Q::int(3))), ("-&a", Box::new(|| -&a)), ("&a + &a", Box::new(|| &a + &a)), ("&a - &a", Box::new(|| &a - &a)), ("a.clone() * 2", Box::new(|| a.clone() * Q::int(2)))];
+        for (name, f) in results.iter() { case();
+            match quiet(|| f()) { Ok(h) => {
+                    if h.size_below() != m1 || h.size_above() != m2 { report(out, "C20 the result of banded arithmetic reports the bandwidths of its operands", format!("Banded({},{},{}) [{}]", n, m1, m2, name), format!("({}, {})", h.size_below(), h.size_above()), format!("({}, {})", m1, m2)); }
+                    if quiet(|| { let _ = &h + &same; }).is_err() { report(out, "C20 conformable operands are accepted", format!("({}) + Banded({},{},{})", name, n, m1, m2), "panic".into(), "a sum".into()); }
+                    if quiet(|| { let mut t = h.clone(); t += &same; }).is_err() { report(out, "C20 conformable operands are accepted", format!("({}) += &Banded({},{},{})", name, n, m1, m2), "panic".into(), "a sum".into()); }
+                    must_panic(out, format!("({}) + Banded({},{},{})", name, n, m2, m1), quiet(|| { let _ = &h + &swapped; })); }
+                Err(e) => report(out, "C20 conformable operands are accepted", format!("Banded({},{},{}) [{}]", n, m1, m2, name), e, "a result".into()) }
+        }
+    }
     // a resize that keeps n and m1 + m2 but changes the split must change what is accepted
     for (p, q) in [((4usize, 1usize, 1usize), (4usize, 2usize, 0usize)), ((5, 2, 1), (5, 1, 2)), ((4, 0, 2), (4, 2, 0))] { case();
         let mut x = Banded::<Q>::new(p.0, p.1, p.2, Q::int(1)); x.resize(q.0, q.1, q.2);
@@ -1364,8 +1583,8 @@ fn main() {
     let escaped = catch_unwind(AssertUnwindSafe(|| { let out = &mut out; let rng = &mut rng; for big in [false, true] { BIG.store(big, std::sync::atomic::Ordering::Relaxed);
         if big && matches!(pid.as_str(), "C13" | "C14" | "C16" | "C17") { continue; }      // no size parameter in these oracles
         match pid.as_str() {
-        "C01" => { c01(rng, out); if !big { c01_extreme(rng, out) } }, "C02" => c02(rng, out), "C03" => c03(rng, out), "C04" => { c04(rng, out); c04_f64(rng, out) },
-        "C05" => { c05(rng, out); c05_f64(rng, out) }, "C06" => c06(rng, out), "C07" => { c07(rng, out); c07_insert(rng, out); c07_sizes(rng, out) }, "C08" => c08(rng, out),
+        "C01" => { c01(rng, out); if !big { c01_extreme(rng, out) } }, "C02" => c02(rng, out), "C03" => { c03(rng, out); if !big { c03_empty(out) } }, "C04" => { c04(rng, out); c04_f64(rng, out) },
+        "C05" => { c05(rng, out); c05_f64(rng, out); if !big { c05_ctor(out) } }, "C06" => c06(rng, out), "C07" => { c07(rng, out); c07_insert(rng, out); c07_sizes(rng, out) }, "C08" => c08(rng, out),
         "C09" => c09(rng, out), "C10" => c10(rng, out), "C11" => c11(rng, out), "C12" => c12(rng, out),
         "C13" => c13(rng, out), "C14" => c14(rng, out), "C15" => c15(rng, out), "C16" => c16(rng, out),
         "C17" => c17(rng, out), "C18" => c18(rng, out), "C19" => { c19(rng, out); c19_file(rng, out) }, "C20" => c20(rng, out),
